@@ -409,6 +409,11 @@ func c15Plumbing(c *Ctx) {
 			key := fnKey(fn) + ":" + callee(call)
 			okW := onlyOrigins(w, func(o string) bool { return strings.HasPrefix(o, "field:") && strings.HasSuffix(o, ".writable") })
 			c.verdict(okW, key+":writable", call.Pos(), "the writable argument is the --writeable option", fmt.Sprintf("the writable argument of the handler does not come from the --writeable option only (origins %v): the server may accept uploads although started read-only", origins(w)))
+			if callee(call) == "desync.NewHTTPHandler" && len(a) >= 5 {
+				sv := a[2]
+				okS := onlyOrigins(sv, func(o string) bool { return strings.HasPrefix(o, "field:") && strings.HasSuffix(o, ".skipVerifyWrite") })
+				c.verdict(okS, key+":skip-verify-write", call.Pos(), "the skipVerifyWrite argument is the --skip-verify-write option", fmt.Sprintf("the skipVerifyWrite argument of the chunk handler does not come from --skip-verify-write (origins %v): asking for verified writes has no effect, a damaged upload is stored under the requested id", origins(sv)))
+			}
 			okA := hasOrigin(auth, func(o string) bool { return strings.HasPrefix(o, "field:") && strings.HasSuffix(o, ".auth") })
 			c.verdict(okA, key+":auth", call.Pos(), "the authorization argument is the configured token", fmt.Sprintf("the authorization argument of the handler is not the configured token (origins %v): the server would accept requests without it", origins(auth)))
 		}
